@@ -115,11 +115,12 @@ type simRW struct {
 	declaredCL  int64
 	bodiless    bool
 
-	pending []byte
-	Visible []byte // what the client can see
-	Written int64
-	Events  []RWEvent
-	Flushes int
+	pending    []byte
+	Visible    []byte       // what the client can see
+	middleware *rwBuffering // the "buffering" flavour: drained when the handler returns
+	Written    int64
+	Events     []RWEvent
+	Flushes    int
 
 	failAfter int64 // -1: never; otherwise Write fails once Written >= failAfter
 	finished  bool
@@ -338,6 +339,34 @@ type rwWrapped struct {
 
 func (r rwWrapped) Unwrap() http.ResponseWriter { return r.inner }
 
+// rwBuffering is a middleware between the server and the transcoder that holds the body back (a compressing or
+// measuring wrapper): what is written to it reaches the connection when Flush is called on *it*, or when the handler
+// returns. It also offers Unwrap, as http.ResponseController expects of wrappers.
+type rwBuffering struct {
+	rw          *simRW
+	buf         []byte
+	wroteHeader bool
+}
+
+func (r *rwBuffering) Header() http.Header { return r.rw.Header() }
+func (r *rwBuffering) WriteHeader(s int)   { r.wroteHeader = true; r.rw.WriteHeader(s) }
+func (r *rwBuffering) Write(p []byte) (int, error) {
+	if !r.wroteHeader {
+		r.WriteHeader(http.StatusOK) // the head is not held back: only body bytes are
+	}
+	r.buf = append(r.buf, p...)
+	return len(p), nil
+}
+func (r *rwBuffering) drain() {
+	if len(r.buf) > 0 {
+		b := r.buf
+		r.buf = nil
+		_, _ = r.rw.Write(b)
+	}
+}
+func (r *rwBuffering) Flush()                      { r.drain(); r.rw.flush() }
+func (r *rwBuffering) Unwrap() http.ResponseWriter { return rwFlusher{r.rw} }
+
 type rwNoFlush struct{ *simRW }
 
 type rwPlain struct{ rw *simRW }              // no Flusher at all
@@ -353,6 +382,9 @@ func (r *simRW) asResponseWriter(variant string) http.ResponseWriter {
 		return rwWrapped{ResponseWriter: rwPlain{r}, inner: rwFlusher{r}}
 	case "noflush":
 		return rwPlain{r}
+	case "buffering":
+		r.middleware = &rwBuffering{rw: r}
+		return r.middleware
 	default:
 		return rwFlusher{r}
 	}
